@@ -28,6 +28,8 @@ UNIVERSES = {
            'subst': {'NT = 4': 'NT = 3', 'Ins <- Ins4': 'Ins <- Ins3', 'Rel <- Rel4': 'Rel <- Rel3', 'Blk <- Blk4': 'Blk <- BlkR', 'MaxReorg = 0': 'MaxReorg = 1'}},
     'R3b': {'nt': 3, 'ins': [[1], [1], [2]], 'rel': [True, True, False], 'blk': [[1, 3], [2]],
             'subst': {'NT = 4': 'NT = 3', 'Ins <- Ins4': 'Ins <- Ins3', 'Rel <- Rel4': 'Rel <- Rel3', 'Blk <- Blk4': 'Blk <- BlkR2', 'MaxReorg = 0': 'MaxReorg = 1'}},
+    'U3b': {'nt': 3, 'ins': [[1], [1], [2]], 'rel': [True, False, False], 'blk': [[2, 3]],
+            'subst': {'NT = 4': 'NT = 3', 'Ins <- Ins4': 'Ins <- Ins3', 'Rel <- Rel4': 'Rel <- Rel3b', 'Blk <- Blk4': 'Blk <- Blk3'}},
     'U3': {'nt': 3, 'ins': [[1], [1], [2]], 'rel': [True, True, False], 'blk': [[2, 3]],
            'subst': {'NT = 4': 'NT = 3', 'Ins <- Ins4': 'Ins <- Ins3', 'Rel <- Rel4': 'Rel <- Rel3', 'Blk <- Blk4': 'Blk <- Blk3'}},
 }
